@@ -838,10 +838,7 @@ pub fn gen_c12(seed: u64) -> Scenario {
         } else {
             main_steps.push(Step::Acquire(a));
         }
-        if g.rng.chance(15, 100) {
-            // non-acquiring operations use raw try operations too (Debug of a lock)
-            main_steps.push(Step::NonAcq(NonAcqOp::Debug, t));
-        }
+
     }
     let mut threads = vec![main_steps];
     let nh = g.rng.range(0, 2);
@@ -933,6 +930,11 @@ pub fn c11_variants(base: &Scenario, seed: u64) -> Vec<Scenario> {
                     a2.body.insert(pos, BodyOp::Panic);
                 }
                 let _ = a;
+                if rng.chance(1, 6) {
+                    // the panicking section itself runs inside a destructor during an unrelated unwind
+                    let inner = s.program.threads[ti][si].clone();
+                    s.program.threads[ti][si] = Step::InUnwind(Box::new(inner));
+                }
                 out.push(s);
             }
         }
